@@ -374,6 +374,12 @@ Definition init_word (eow : option str) (w : list N) : list str :=
   | None => cs
   | Some sfx => match rev cs with [] => [] | l :: r => rev r ++ [l ++ sfx] end
   end.
+(* the bytes a vocabulary string stands for (None: some char is not in the table) *)
+Definition dec_str (s : str) : option (list N) := all_some (map char_to_byte s).
+(* an added token whose id is also a vocabulary id has that entry's bytes as content *)
+Definition added_ok (v : vocab) (added : list (tok * list N)) : Prop :=
+  forall id content, a_get added id = Some content ->
+  forall s, In (s, id) v -> dec_str s = Some content.
 (* no two strings share an id *)
 Definition vocab_inj (v : vocab) : Prop :=
   forall s1 s2 i, v_get v s1 = Some i -> v_get v s2 = Some i -> s1 = s2.
@@ -388,23 +394,27 @@ Definition set_last_eow (et : list tok) (piece : list N) (ts : list tok) : list 
   | _, _ => ts
   end.
 
+(* the part of encode_piece after the ignore_merges shortcut *)
+Definition encode_piece_merges (b : bpe) (piece : list N) (end_of_word : bool) : res (list tok) :=
+  let t0 := map (fun x => nth (N.to_nat x) (b_b2t b) 0) piece in
+  let t1 := match b_eow b with
+            | Some et => if end_of_word then set_last_eow et piece t0 else t0
+            | None => t0
+            end in
+  bpe_merge (b_merges b) t1.
+
+Definition whole_piece (b : bpe) (piece : list N) : option tok :=
+  if b_ignore b then
+    match b_vocab b with
+    | Some v => v_get v (map byte_to_char piece)
+    | None => None
+    end
+  else None.
+
 Definition encode_piece (b : bpe) (piece : list N) (end_of_word : bool) : res (list tok) :=
-  let whole :=
-    if b_ignore b then
-      match b_vocab b with
-      | Some v => v_get v (map byte_to_char piece)
-      | None => None
-      end
-    else None in
-  match whole with
+  match whole_piece b piece with
   | Some id => Ok [id]
-  | None =>
-      let t0 := map (fun x => nth (N.to_nat x) (b_b2t b) 0) piece in
-      let t1 := match b_eow b with
-                | Some et => if end_of_word then set_last_eow et piece t0 else t0
-                | None => t0
-                end in
-      bpe_merge (b_merges b) t1
+  | None => encode_piece_merges b piece end_of_word
   end.
 
 (* Rust's str::from_utf8 *)
@@ -449,7 +459,7 @@ Fixpoint decode_bytes (b : bpe) (ids : list tok) : dec_res :=
         | None =>
             match id_to_str (b_vocab_all b) id with
             | Some enc =>
-                match all_some (map char_to_byte enc) with
+                match dec_str enc with
                 | Some bs => DecOk bs
                 | None => DecPanic
                 end
